@@ -6,10 +6,12 @@ os.makedirs(vcheck.WORK, exist_ok=True)
 # 1. regenerate Gen/*.v from /repo
 gen = os.path.join(vcheck.VERIF, "tools", "cxx2v", "gen_all.py")
 if os.path.exists(gen):
-    rc, out = vcheck.sh([sys.executable, gen], timeout=900)
-    print(out[-2000:])
-    if rc != 0:
-        print("setup: translator failed (rc=%d) - checks will report it" % rc)
+    # units.json (C25) plus the per-property unit lists units_<id>.json
+    for uf in sorted(glob.glob(os.path.join(vcheck.VERIF, "tools", "cxx2v", "units*.json"))):
+        rc, out = vcheck.sh([sys.executable, gen], timeout=900, env={"CXX2V_UNITS": uf})
+        print(out[-1500:])
+        if rc != 0:
+            print("setup: translator failed on %s (rc=%d) - the checks will report it" % (os.path.basename(uf), rc))
 # 2. full Coq build
 vcheck.coq_makefile()
 rc, out = vcheck.sh(["make", "-k", "-j%d" % vcheck.NCPU], cwd=vcheck.COQ, timeout=7200)
